@@ -445,3 +445,250 @@ Section Unlinkables.
     - cbn [uc_prob mk_u u_prob]. exact Hq.
   Qed.
 End Unlinkables.
+
+(* ================================================================== invariance under Permutation of the input rows *)
+From Coq Require Import Sorting.Permutation.
+
+Lemma eqk_Z_eq a b : eqk Z.leb a b = true -> a = b.
+Proof. rewrite eqk_Zleb. apply Z.eqb_eq. Qed.
+Lemma eqk_lex_eq a b : eqk lex_leb a b = true -> a = b.
+Proof. apply eqk_lex. Qed.
+Lemma lenZ_perm {A} (l l' : list A) : Permutation l l' -> lenZ l = lenZ l'.
+Proof. intros H. unfold lenZ. rewrite (Permutation_length H). reflexivity. Qed.
+Lemma non_null_perm col col' : Permutation col col' -> Permutation (non_null col) (non_null col').
+Proof. apply flat_map_perm. Qed.
+
+Lemma tf_table_perm col col' : Permutation col col' -> tf_table col = tf_table col'.
+Proof.
+  intros H. pose proof (non_null_perm _ _ H) as Hn. unfold tf_table.
+  rewrite (group_keys_perm idZ Z.leb Zleb_total Zleb_trans eqk_Z_eq _ _ Hn).
+  apply map_ext. intros v. f_equal. f_equal; apply lenZ_perm; [apply members_perm|]; exact Hn.
+Qed.
+
+Lemma completeness_rows_perm cells cells' :
+  Permutation cells cells' -> completeness_rows cells = completeness_rows cells'.
+Proof.
+  intros H. unfold completeness_rows.
+  rewrite (group_keys_perm cell_ds Z.leb Zleb_total Zleb_trans eqk_Z_eq _ _ H).
+  apply map_ext. intros d. pose proof (members_perm cell_ds Z.leb cells cells' d H) as Hm.
+  rewrite (lenZ_perm _ _ Hm), (countZ_perm _ _ _ Hm). reflexivity.
+Qed.
+
+Lemma cvd_perm preds preds' :
+  Permutation preds preds' -> comparison_vector_distribution preds = comparison_vector_distribution preds'.
+Proof.
+  intros H. unfold comparison_vector_distribution.
+  rewrite (group_keys_perm idL lex_leb lex_total lex_trans eqk_lex_eq _ _ H).
+  apply map_ext. intros g. pose proof (members_perm idL lex_leb preds preds' g H) as Hm.
+  rewrite (lenZ_perm _ _ Hm), (lenZ_perm _ _ H). reflexivity.
+Qed.
+
+Lemma histogram_perm bw scores scores' :
+  Permutation scores scores' -> histogram bw scores = histogram bw scores'.
+Proof.
+  intros H. unfold histogram.
+  rewrite (group_keys_perm (bin_of bw) Z.leb Zleb_total Zleb_trans eqk_Z_eq _ _ H).
+  apply map_ext. intros k. rewrite (lenZ_perm _ _ (members_perm (bin_of bw) Z.leb scores scores' k H)). reflexivity.
+Qed.
+
+Lemma Qleb_compat_r x p p' : (p == p')%Q -> Qle_bool x p = Qle_bool x p'.
+Proof.
+  intros E. destruct (Qle_bool x p) eqn:A, (Qle_bool x p') eqn:B; try reflexivity.
+  - apply Qle_bool_iff in A. rewrite E in A. apply Qle_bool_iff in A. congruence.
+  - apply Qle_bool_iff in B. rewrite <- E in B. apply Qle_bool_iff in B. congruence.
+Qed.
+Lemma Qleb_compat_l x p p' : (p == p')%Q -> Qle_bool p x = Qle_bool p' x.
+Proof.
+  intros E. destruct (Qle_bool p x) eqn:A, (Qle_bool p' x) eqn:B; try reflexivity.
+  - apply Qle_bool_iff in A. rewrite E in A. apply Qle_bool_iff in A. congruence.
+  - apply Qle_bool_iff in B. rewrite <- E in B. apply Qle_bool_iff in B. congruence.
+Qed.
+
+(* the unlinkables rows are keyed by a rational (equality is Qeq): every listed row has a
+   counterpart with an equal probability and equal proportions *)
+Lemma unlinkables_perm scores scores' r :
+  Permutation scores scores' -> In r (unlinkables_data scores) ->
+  exists r', In r' (unlinkables_data scores') /\
+             (uc_prob r' == uc_prob r)%Q /\ (cum_prop r' == cum_prop r)%Q /\ (uc_prop r' == uc_prop r)%Q.
+Proof.
+  intros H Hr. unfold unlinkables_data in *.
+  assert (Hp : Permutation (round_self_link scores) (round_self_link scores')) by (apply Permutation_map; exact H).
+  destruct (unlinkables_row_spec _ r Hr) as (Hlt & (s & Hs & Hps) & Hcum & Hprop).
+  assert (Hs' : In s (round_self_link scores')) by (eapply Permutation_in; eauto).
+  assert (Hlt' : (s_prob s < 1)%Q) by (rewrite <- Hps; exact Hlt).
+  destruct (unlinkables_complete _ s Hs' Hlt') as (r' & Hr' & Hq).
+  exists r'. split; [exact Hr'|]. rewrite <- Hps in Hq. split; [exact Hq|].
+  destruct (unlinkables_row_spec _ r' Hr') as (_ & _ & Hcum' & Hprop').
+  rewrite Hcum, Hcum', Hprop, Hprop', <- (lenZ_perm _ _ Hp), <- !(countZ_perm _ _ _ Hp).
+  split.
+  - rewrite (countZ_ext (fun s0 => Qle_bool (s_prob s0) (uc_prob r')) (fun s0 => Qle_bool (s_prob s0) (uc_prob r))).
+    + reflexivity.
+    + intros x. apply Qleb_compat_r. exact Hq.
+  - rewrite (countZ_ext (fun s0 => eqk Qle_bool (uc_prob r') (s_prob s0)) (fun s0 => eqk Qle_bool (uc_prob r) (s_prob s0))).
+    + reflexivity.
+    + intros x. unfold eqk. rewrite (Qleb_compat_l _ _ _ Hq), (Qleb_compat_r _ _ _ Hq). reflexivity.
+Qed.
+
+(* ================================================================== profile_columns *)
+Definition freq (col : list (option Z)) (x : Z) : Z := countZ (Z.eqb x) (non_null col).
+
+Lemma value_frequencies_spec col r :
+  In r (value_frequencies col) ->
+  In (vf_value r) (non_null col) /\ value_count r = freq col (vf_value r) /\ 0 < value_count r.
+Proof.
+  unfold value_frequencies. intros H. apply in_map_iff in H. destruct H as (v & <- & Hv).
+  cbn [vf_value value_count]. apply group_keys_from in Hv. destruct Hv as (x & Hx & ->). unfold idZ.
+  split; [exact Hx|]. rewrite members_Z. split; [reflexivity|].
+  change (lenZ (filter (Z.eqb x) (non_null col))) with (countZ (Z.eqb x) (non_null col)).
+  unfold countZ. assert (In x (filter (Z.eqb x) (non_null col))) by (apply filter_In; split; [exact Hx|apply Z.eqb_refl]).
+  destruct (filter (Z.eqb x) (non_null col)); [contradiction|cbn [length]; lia].
+Qed.
+Lemma value_frequencies_complete col v :
+  In v (non_null col) -> exists r, In r (value_frequencies col) /\ vf_value r = v.
+Proof.
+  intros Hv. destruct (group_keys_cover idZ Z.leb Zleb_total Zleb_trans _ _ Hv) as (k & Hk & He).
+  apply eqk_Z_eq in He. unfold idZ in He. subst k.
+  eexists. split; [unfold value_frequencies; apply in_map_iff; eexists; split; [reflexivity|exact Hk]|reflexivity].
+Qed.
+Lemma value_frequencies_sorted col :
+  StronglySorted (fun a b => vf_value a < vf_value b) (value_frequencies col).
+Proof.
+  unfold value_frequencies. apply StronglySorted_map'. cbn [vf_value].
+  eapply StronglySorted_impl'; [|exact (group_keys_sorted idZ Z.leb Zleb_total Zleb_trans (non_null col))].
+  intros a b. apply ltk_Zleb.
+Qed.
+Lemma value_counts_add_up col : sum_by value_count (value_frequencies col) = total_non_null_rows col.
+Proof.
+  unfold value_frequencies, total_non_null_rows.
+  rewrite (grouped_table_total idZ Z.leb Zleb_total Zleb_trans _ value_count (fun _ => 1)).
+  - symmetry. apply lenZ_sum_one.
+  - intros k. cbn [value_count]. apply lenZ_sum_one.
+Qed.
+
+Lemma value_count_is_freq col y : In y (value_frequencies col) -> value_count y = freq col (vf_value y).
+Proof. intros H. apply value_frequencies_spec in H. tauto. Qed.
+
+Lemma percentiles_spec col p :
+  In p (percentiles col) ->
+  (exists r, In r (value_frequencies col) /\ value_count r = pc_value_count p) /\
+  value_count_cumsum p = countZ (fun x => pc_value_count p <=? freq col x) (non_null col) /\
+  sum_tokens_in_value_count_group p = countZ (fun x => freq col x =? pc_value_count p) (non_null col) /\
+  percentile_ex_nulls p = (1 - qdiv (value_count_cumsum p) (total_non_null_rows col))%Q /\
+  percentile_inc_nulls p = (1 - qdiv (value_count_cumsum p) (total_rows_incl_nulls col))%Q.
+Proof.
+  unfold percentiles. intros H. apply in_map_iff in H. destruct H as ([[pre x] post] & <- & Hfr).
+  cbn [pc_value_count value_count_cumsum sum_tokens_in_value_count_group percentile_ex_nulls percentile_inc_nulls].
+  set (vf := value_frequencies col) in *.
+  set (mk := fun c => (c, sum_by value_count (members value_count Z.leb vf c))).
+  assert (HT : total_in_value_counts vf = map mk (group_keys value_count Z.leb vf)) by reflexivity.
+  assert (Hsorted : SortedR fst Z.leb (total_in_value_counts vf)).
+  { rewrite HT. unfold SortedR. apply StronglySorted_map'. cbn [mk fst].
+    exact (group_keys_sorted value_count Z.leb Zleb_total Zleb_trans vf). }
+  assert (Hx : In x (total_in_value_counts vf)).
+  { rewrite (frames_spec _ _ _ _ Hfr). apply in_or_app. right. left. reflexivity. }
+  rewrite HT in Hx. apply in_map_iff in Hx. destruct Hx as (c & <- & Hc). cbn [mk fst snd] in *.
+  (* sums over vf selected by a predicate on the count = counts over the non-null cells *)
+  assert (Hvf : forall q : Z -> bool,
+             sum_by value_count (filter (fun r => q (value_count r)) vf)
+             = countZ (fun v => q (freq col v)) (non_null col)).
+  { intros q. unfold vf.
+    rewrite (filter_ext_in (fun r => q (value_count r)) (fun r => q (freq col (vf_value r))))
+      by (intros r Hr; rewrite (value_count_is_freq col r Hr); reflexivity).
+    unfold value_frequencies.
+    rewrite (grouped_table_sum idZ Z.leb Zleb_total Zleb_trans
+               (fun v => {| vf_value := v; value_count := lenZ (members idZ Z.leb (non_null col) v) |})
+               vf_value value_count (fun _ => 1) (fun v => q (freq col v)) (non_null col)).
+    - rewrite sum_by_one. reflexivity.
+    - reflexivity.
+    - intros k. cbn [value_count]. apply lenZ_sum_one.
+    - intros a b Hab. apply eqk_Z_eq in Hab. subst. reflexivity. }
+  split; [|split; [|split; [|split; reflexivity]]].
+  - apply group_keys_from in Hc. destruct Hc as (r & Hr & ->). exists r. split; [exact Hr|reflexivity].
+  - rewrite (frame_desc_is_filter fst Z.leb Zleb_total snd _ pre (mk c) post Hsorted Hfr). cbn [mk fst].
+    rewrite HT.
+    rewrite (grouped_table_sum value_count Z.leb Zleb_total Zleb_trans mk fst snd value_count (fun k => c <=? k) vf).
+    + apply (Hvf (fun k => c <=? k)).
+    + reflexivity.
+    + reflexivity.
+    + intros a b Hab. apply eqk_Z_eq in Hab. subst. reflexivity.
+  - unfold members. rewrite (filter_ext _ (fun r => value_count r =? c)) by (intros r; rewrite eqk_Zleb; apply Z.eqb_sym).
+    apply (Hvf (fun k => k =? c)).
+Qed.
+
+(* ------------------------------------------------------------------ top n / bottom n *)
+Section SortBy.
+  Context {A : Type}.
+  Variable before : A -> A -> bool.
+  Hypothesis before_total : forall a b, before a b = true \/ before b a = true.
+  Hypothesis before_trans : forall a b c, before a b = true -> before b c = true -> before a c = true.
+
+  Lemma insert_by_perm x l : Permutation (insert_by before x l) (x :: l).
+  Proof.
+    induction l as [|h t IH]; cbn; [reflexivity|]. destruct (before x h); [reflexivity|].
+    rewrite IH. apply perm_swap.
+  Qed.
+  Lemma sort_by_perm l : Permutation (sort_by before l) l.
+  Proof. induction l as [|h t IH]; cbn; [reflexivity|]. rewrite insert_by_perm, IH. reflexivity. Qed.
+  Lemma insert_by_sorted x l :
+    StronglySorted (fun a b => before a b = true) l -> StronglySorted (fun a b => before a b = true) (insert_by before x l).
+  Proof.
+    induction 1 as [|h t Hs IH Hh]; cbn; [constructor; constructor|].
+    destruct (before x h) eqn:E.
+    - constructor; [constructor; assumption|]. constructor; [exact E|].
+      rewrite Forall_forall in *. intros y Hy. eapply before_trans; [exact E|apply Hh; exact Hy].
+    - constructor; [exact IH|]. rewrite Forall_forall in *. intros y Hy.
+      apply (Permutation_in _ (insert_by_perm x t)) in Hy. destruct Hy as [<-|Hy].
+      + destruct (before_total x h) as [H|H]; [congruence|exact H].
+      + apply Hh. exact Hy.
+  Qed.
+  Lemma sort_by_sorted l : StronglySorted (fun a b => before a b = true) (sort_by before l).
+  Proof. induction l as [|h t IH]; cbn; [constructor|]. apply insert_by_sorted. exact IH. Qed.
+
+  Lemma sorted_split_le (a b : list A) :
+    StronglySorted (fun x y => before x y = true) (a ++ b) ->
+    StronglySorted (fun x y => before x y = true) a /\ forall x y, In x a -> In y b -> before x y = true.
+  Proof.
+    induction a as [|h t IH]; cbn; intros Hs; [split; [constructor|intros ? ? []]|].
+    inversion Hs as [|? ? Hs' Hh]; subst. destruct (IH Hs') as [I1 I2]. rewrite Forall_forall in Hh. split.
+    - constructor; [exact I1|]. rewrite Forall_forall. intros x Hx. apply Hh. apply in_or_app. left. exact Hx.
+    - intros x y [<-|Hx] Hy; [apply Hh; apply in_or_app; right; exact Hy|apply I2; assumption].
+  Qed.
+  Lemma firstn_sorted_spec n l :
+    let top := firstn n (sort_by before l) in
+    exists rest, Permutation (top ++ rest) l /\ length top = Nat.min n (length l) /\
+                 StronglySorted (fun x y => before x y = true) top /\
+                 (forall x y, In x top -> In y rest -> before x y = true).
+  Proof.
+    cbv zeta. exists (skipn n (sort_by before l)). rewrite firstn_skipn. split; [apply sort_by_perm|]. split.
+    - rewrite firstn_length, (Permutation_length (sort_by_perm l)). reflexivity.
+    - pose proof (sort_by_sorted l) as Hs. rewrite <- (firstn_skipn n (sort_by before l)) in Hs.
+      apply sorted_split_le. exact Hs.
+  Qed.
+End SortBy.
+
+Lemma top_n_spec n col :
+  exists rest, Permutation (top_n n col ++ rest) (value_frequencies col) /\
+    length (top_n n col) = Nat.min n (length (value_frequencies col)) /\
+    StronglySorted (fun x y => value_count y <= value_count x) (top_n n col) /\
+    (forall x y, In x (top_n n col) -> In y rest -> value_count y <= value_count x).
+Proof.
+  destruct (firstn_sorted_spec (fun a b : vfrow => value_count b <=? value_count a)
+              (fun a b => ltac:(rewrite !Z.leb_le; lia)) (fun a b c => ltac:(rewrite !Z.leb_le; lia))
+              n (value_frequencies col)) as (rest & H1 & H2 & H3 & H4).
+  exists rest. split; [exact H1|]. split; [exact H2|]. split.
+  - eapply StronglySorted_impl'; [|exact H3]. intros a b. apply Z.leb_le.
+  - intros x y Hx Hy. apply Z.leb_le. apply H4; assumption.
+Qed.
+Lemma bottom_n_spec n col :
+  exists rest, Permutation (bottom_n n col ++ rest) (value_frequencies col) /\
+    length (bottom_n n col) = Nat.min n (length (value_frequencies col)) /\
+    StronglySorted (fun x y => value_count x <= value_count y) (bottom_n n col) /\
+    (forall x y, In x (bottom_n n col) -> In y rest -> value_count x <= value_count y).
+Proof.
+  destruct (firstn_sorted_spec (fun a b : vfrow => value_count a <=? value_count b)
+              (fun a b => ltac:(rewrite !Z.leb_le; lia)) (fun a b c => ltac:(rewrite !Z.leb_le; lia))
+              n (value_frequencies col)) as (rest & H1 & H2 & H3 & H4).
+  exists rest. split; [exact H1|]. split; [exact H2|]. split.
+  - eapply StronglySorted_impl'; [|exact H3]. intros a b. apply Z.leb_le.
+  - intros x y Hx Hy. apply Z.leb_le. apply H4; assumption.
+Qed.
